@@ -350,6 +350,37 @@ pub fn generate(seed: u64, n: usize, thorough: bool, corpus: Option<&str>) -> Ve
             cases.push(run(src, vec!["stream:typed-programs".into()], &mut pool));
         }
     }
+    // ---- tiny mixed-integer programs (2-4 variables of every declared type, 1-4 rows with small coefficients, growth cycles
+    //      `x >= k*y + 1, y >= k*x + 1`, free / bounded / infinite domains): the solve stages must answer, whatever the answer is
+    {
+        let mut rr = Rng::new(crate::pre_gen::spread_seed(seed ^ 0x51a7));
+        for _ in 0..(if thorough { 3000 } else { 300 }) {
+            let nv = 2 + rr.below(3);
+            let names: Vec<String> = (0..nv).map(|i| format!("v{}", i)).collect();
+            let mut decls = String::new();
+            for n in &names {
+                let ty = match rr.below(9) { 0 | 1 => "Real".to_string(), 2 | 3 => "NonNegativeReal".to_string(), 4 => "Boolean".to_string(), 5 => format!("IntegerRange({}, {})", rr.range(-3, 1), rr.range(1, 5)),
+                    6 => format!("Real({}, {})", rr.range(-5, 0), rr.range(0, 9)), 7 => format!("NonNegativeReal({}, {})", rr.range(0, 2), rr.range(2, 9)), _ => "IntegerRange(0, 1)".to_string() };
+                decls.push_str(&format!("    {} as {}\n", n, ty));
+            }
+            let term = |rr: &mut Rng, n: &str| { let c = rr.range(-5, 5); if c == 1 { n.to_string() } else { format!("{} * {}", c, n) } };
+            let mut rows = String::new();
+            if rr.chance(1, 3) {
+                let k = rr.range(1, 6); let (a, b) = (&names[0], &names[1]);
+                rows.push_str(&format!("    {} * {} + 1 <= {}\n    {} * {} + 1 <= {}\n", k, a, b, k, b, a));
+            }
+            for _ in 0..1 + rr.below(4) {
+                let mut lhs: Vec<String> = vec![];
+                for n in &names { if rr.chance(2, 3) { lhs.push(term(&mut rr, n)); } }
+                if lhs.is_empty() { lhs.push(names[0].clone()); }
+                rows.push_str(&format!("    {} {} {}\n", lhs.join(" + "), rr.pick(&["<=", ">=", "=", "<=", ">="]), rr.range(-6, 9)));
+            }
+            let mut obj: Vec<String> = vec![];
+            for n in &names { if rr.chance(2, 3) { obj.push(term(&mut rr, n)); } }
+            let src = format!("{} {}\ns.t.\n{}define\n{}", rr.pick(&["min", "max"]), if obj.is_empty() { "1".to_string() } else { obj.join(" + ") }, rows, decls);
+            cases.push(run(src, vec!["stream:tiny-milp".into()], &mut pool));
+        }
+    }
     let restarts = pool.restarts;
     drop(pool);
     // ---- the primitive operator core (in-process, catch_unwind): correspondence with Rooc/Pre/Prim.lean
